@@ -40,6 +40,9 @@ Proof.
     match goal with HK : forall k, In k (map fst l) -> _ |- _ => apply HK end.
     clear -E. induction l as [|[k0 a] l IHl]; [discriminate|]. simpl in *.
     destruct (str_eqb k k0) eqn:Ek; [left; symmetry; apply str_eqb_spec; assumption | right; auto].
+  - intros d d' H. inversion H; subst; constructor.
+  - intros d d' H. inversion H; subst; constructor.
+  - intros d d' H. inversion H; subst; constructor.
   - intros l l' H. inversion H; subst. constructor.
   - intros t IHt ts IHts l l' H. inversion H; subst. constructor; [apply IHt | apply IHts]; assumption.
   - intros l l' H k d Hm. discriminate.
